@@ -10,13 +10,13 @@ namespace Golib.C02
 
 variable {K V : Type} [DecidableEq K] {cmp : K → K → Int}
 
-theorem length_ins (hc : TotalCmp cmp) (key : K) {l : List K} (hs : Sorted cmp l) :
+theorem length_ins (hc : WeakCmp cmp) (key : K) {l : List K} (hs : Sorted cmp l) :
     (ins cmp key l).length = l.length + 1 := by
   have := congrArg List.length (lo_append_ge hc key hs)
   simp only [List.length_append] at this
   simp only [ins, List.length_append, List.length_cons]; omega
 
-theorem length_del (hc : TotalCmp cmp) (key : K) {l : List K} (hs : Sorted cmp l) (hm : key ∈ l) :
+theorem length_del (hc : WeakCmp cmp) (key : K) {l : List K} (hs : Sorted cmp l) (hm : key ∈ l) :
     (del cmp key l).length + 1 = l.length := by
   have := congrArg List.length (lo_append_ge hc key hs)
   rw [ge_of_mem hc hs hm] at this
@@ -32,7 +32,7 @@ theorem valOf_cons_self {vals : List (K × V)} {key : K} (val : V) :
   simp [valOf, getVal]
 
 /-- The abstraction of a chain `lo ++ key :: gt` whose values agree with `f` off `key`. -/
-theorem filterMap_split (hc : TotalCmp cmp) (key : K) (val : V) (l : List K) (f f' : K → Option (K × V))
+theorem filterMap_split (hc : WeakCmp cmp) (key : K) (val : V) (l : List K) (f f' : K → Option (K × V))
     (hf : KeyPres f) (hkey : f' key = some (key, val)) (hoff : ∀ x, x ≠ key → f' x = f x) :
     (lo cmp key l ++ key :: gt cmp key l).filterMap f' = OMap.set cmp (l.filterMap f) key val := by
   rw [omap_set_filterMap hf, List.filterMap_append, List.filterMap_cons, hkey]
@@ -42,18 +42,19 @@ theorem filterMap_split (hc : TotalCmp cmp) (key : K) (val : V) (l : List K) (f 
     congr 1
     exact filterMap_congr_mem (fun x hx => hoff x (hc.ne_of_lt (mem_gt.mp hx).2).symm)
 
-theorem Inv.of_inserted (hc : TotalCmp cmp) {s : SL K V} (h : Inv cmp s) {key : K} (hk : key ∉ chain0 s)
-    (val : V) {ht : Nat} (h1 : 1 ≤ ht) (h2 : ht ≤ maxLevel) :
+theorem Inv.of_inserted (hc : WeakCmp cmp) {s : SL K V} (h : Inv cmp s) {key : K}
+    (hkw : ∀ y ∈ chain0 s, cmp y key ≠ 0) (val : V) {ht : Nat} (h1 : 1 ≤ ht) (h2 : ht ≤ maxLevel) :
     Inv cmp (inserted cmp s key val ht) ∧
       chain0 (inserted cmp s key val ht) = ins cmp key (chain0 s) ∧
       toMap (inserted cmp s key val ht) = OMap.set cmp (toMap s) key val := by
   obtain ⟨rest, hr⟩ := h.lv_cons
+  have hk : key ∉ chain0 s := fun hm => hkw key hm (hc.refl key)
   have hlvl := h.lvl
   have hn1 : 1 ≤ newHeight s ht := by unfold newHeight; split <;> omega
   obtain ⟨n, hn⟩ : ∃ n, newHeight s ht = n + 1 := ⟨newHeight s ht - 1, by omega⟩
   have hnle : newHeight s ht ≤ (if ht > s.level then s.level + 1 else s.level) := by
     unfold newHeight; split <;> omega
-  have hnot : ∀ l ∈ s.lv, key ∉ l := fun l hl hm => hk ((h.sub0 l hl).subset hm)
+  have hnot : ∀ l ∈ s.lv, ∀ y ∈ l, cmp y key ≠ 0 := fun l hl y hy => hkw y ((h.sub0 l hl).subset hy)
   have hc0 : chain0 (inserted cmp s key val ht) = ins cmp key (chain0 s) := by
     simp only [chain0, inserted, hn]
     rw [hr]; simp [insTop]
@@ -94,12 +95,12 @@ theorem Inv.of_inserted (hc : TotalCmp cmp) {s : SL K V} (h : Inv cmp s) {key : 
     exact ⟨fun hm => hk ((h.vals key).mp hm), h.valsNodup⟩
   · exact h.rand
   · rw [toMap_eq, hc0, toMap_eq]
-    have hge : ge cmp key (chain0 s) = gt cmp key (chain0 s) := ge_of_not_mem hc hk
+    have hge : ge cmp key (chain0 s) = gt cmp key (chain0 s) := ge_of_not_mem hc hkw
     unfold ins; rw [hge]
     exact filterMap_split hc key val (chain0 s) (valOf s.vals) _ (valOf_keyPres _)
       (valOf_cons_self val) (fun x hx => valOf_cons_ne val hx)
 
-theorem Inv.of_setVal (hc : TotalCmp cmp) {s : SL K V} (h : Inv cmp s) {key : K} (hk : key ∈ chain0 s)
+theorem Inv.of_setVal (hc : WeakCmp cmp) {s : SL K V} (h : Inv cmp s) {key : K} (hk : key ∈ chain0 s)
     (val : V) :
     Inv cmp { s with vals := setVal s.vals key val } ∧
       chain0 { s with vals := setVal s.vals key val } = chain0 s ∧
